@@ -21,6 +21,8 @@ def run_one(rid):
     for p in PROPS:
         c = subprocess.run([os.path.join(V, "check"), p, "quick"], cwd=V, env=env, capture_output=True, text=True)
         vio = [l for l in c.stdout.splitlines() if l.startswith("VIOLATION")]
+        if vio or c.returncode != 0:
+            res.setdefault("logs", {})[p] = (c.stdout + c.stderr)[-3000:]
         res["checks"][p] = "quiet" if not vio and c.returncode == 0 else ("no-failing-input-found" if vio and vio[0].endswith("no-failing-input-found") else "CONCRETE-VIOLATION" if vio else "rc=%d" % c.returncode)
     shutil.rmtree(tmp)
     return res
